@@ -10,7 +10,9 @@ from hypothesis import strategies as st
 import baize.asgi as A
 import baize.wsgi as W
 
-from harness import core, gateways as gw, vtime, wsched
+from baize.concurrency import run_in_threadpool
+
+from harness import core, gateways as gw, vtime, wsched, x_c06
 from harness.core import Result
 from harness.recipes import ProducerError
 
@@ -54,6 +56,16 @@ RULES = {
     "ends (CancelledError, a normal return or the producer's own exception) within the same bounds, the producer is closed once, no task is left",
     "asgi_slow_client": "exhaustive grid: the client needs 0.75 / 1.5 / 2.5 s per event with ping intervals 0.5 / 1.0 (send slower than "
     "ping) and the producer ahead; nothing may be lost without a disconnect",
+    "asgi_threads": "exhaustive grid on a thread-aware virtual-time loop (harness/x_c06.py): the producer's steps await baize's own run_in_threadpool "
+    "around a blocking function owned by the harness (real worker thread; the harness opens its gate at a virtual instant, or not before the "
+    "verdict was taken = a blocking call that does not return); 8 step patterns (plain asyncio.sleep control, first / later / every step blocks, "
+    "blocking functions that return at once, one that raises, first / later call never returns) x 4 response kinds x send delay x disconnect "
+    "(send swallows / raises) or server cancellation at every quarter second; after the call has ended and ten loop turns the producer must be "
+    "closed once and no task left - while the worker is still blocked; every gate is opened and every worker joined before the next case; "
+    "non-trivial = the client left / the server cancelled while a worker thread was inside the blocking function",
+    "asgi_threads_h": "Hypothesis over the same class: 0..5 items, per-step delay and sleep / worker-thread choice, optional never-returning call "
+    "(event streams), ping interval, send delay, producer exception (raised inside the worker thread), cleanup code that awaits, producer object "
+    "without aclose, disconnect / cancellation instant",
     "asgi_endless": "a producer that never ends and never waits (3000 steps without delay stand for it), client reading at 0.25 / 0.5 s per "
     "chunk and leaving / the server cancelling at 0, 0.5, 1, 3: a producer driven to the cut-off means the call would never have returned",
 }
@@ -70,6 +82,11 @@ ASSUMPTIONS = [
     "cleanup code that awaits is run to its end by an awaited aclose(); for ASGI event streams (relay task cancelled, not awaited) the "
     "'cleanup already scheduled on the event loop' is given the producer's own cleanup time before tasks are counted",
     "wsgi_latency tolerates 0.5 s of scheduling noise and needs four late measurements in a row before it reports",
+    "asgi_threads: a blocking function running in a worker thread cannot be interrupted, so the worker itself may stay blocked in the user's "
+    "function (it is not counted as a leaked pool thread); what must not wait for it is the producer's closing and the response's own tasks. "
+    "A byte-stream call may wait for the step in progress: its bound runs from the instant the blocking function returns. Real time is only a "
+    "10 s budget on the two thread hand-offs (worker entered the function / worker's completion queued on the loop); an exhausted budget makes "
+    "the case inconclusive (label, no verdict)",
 ]
 
 EPS = 1e-9
@@ -100,6 +117,14 @@ def oracle_asgi(case) -> Result:
     cancel_at = case.get("cancel_at")  # the server cancels the application task at this instant (no disconnect)
     info["completed"] = False
     info["cleanup_done"] = 0
+    # steps whose wait is a blocking function run through baize's run_in_threadpool (a real worker thread, released by
+    # the harness delays[i] virtual seconds after the step began); `stuck`: that step's blocking function does not
+    # return while the case lasts
+    threads = set(case.get("threads") or ())
+    stuck = case.get("stuck")
+    threaded = "threads" in case or stuck is not None
+    info["gates"] = []
+    info["natural_ends"] = []
 
     async def step(i):
         """One producer step; returns the item, or None at the end of the stream."""
@@ -108,7 +133,23 @@ def oracle_asgi(case) -> Result:
         st_ = [begin, None]
         info["steps"].append(st_)
         d = delays[i] if i < len(delays) else 0
-        if d:
+        if i in threads or i == stuck:
+            # the documented way for an async producer to call blocking code
+            gate = x_c06.Gate(loop, exc=ProducerError(f"producer raised at step {i}") if i == raise_at else None)
+            info["gates"].append(gate)
+            if i != stuck:
+                loop.call_later(d, loop.release, gate)
+                # a blocking function cannot be interrupted: this is when the step ends, whoever still waits for it
+                info["natural_ends"].append(begin + d)
+            loop.announce(gate)
+            try:
+                await run_in_threadpool(gate.block)
+            except Exception:
+                st_[1] = loop.time()  # the blocking function raised: that is the end of this step
+                raise
+            finally:
+                loop.announced = None
+        elif d:
             await asyncio.sleep(d)
         st_[1] = loop.time()
         if raise_at is not None and i == raise_at:
@@ -232,10 +273,15 @@ def oracle_asgi(case) -> Result:
 
     ctx = f"{case!r}"
     try:
-        run, _loop = vtime.run_virtual(main)
+        run, _loop = x_c06.run_threads(main, workers=n + 3) if threaded else vtime.run_virtual(main)
     except vtime.Hang as exc:
         r.fail(f"C06:asgi:{kind}:hang", f"{ctx}: {exc}; producer steps {info['steps']!r}")
         _classify_asgi(r, case, None)
+        return r
+    if threaded and _loop.inconclusive:
+        # a thread hand-off ran out of its real-time budget (loaded machine): the interleaving that was asked for did
+        # not take place, so nothing is concluded from this run
+        r.label("inconclusive-thread-handoff")
         return r
     R = run.returned_at
     # (a) outcome
@@ -269,7 +315,7 @@ def oracle_asgi(case) -> Result:
             after = [s for s in info["steps"] if s[0] > T + EPS]
             if len(after) > 1:
                 r.fail(f"C06:asgi:{kind}:steps-after-disconnect", f"{ctx}: {len(after)} producer steps began after the call was {what} at {T}: {info['steps'][:12]!r}")
-            ends = [s[1] for s in info["steps"] if s[1] is not None]
+            ends = [s[1] for s in info["steps"] if s[1] is not None] + info["natural_ends"]
             bound = max([T] + ends) + 2 * send_delay + cleanup
             if R > bound + EPS:
                 r.fail(f"C06:asgi:{kind}:late-return", f"{ctx}: {what} at {T}, call returned at {R}, bound {bound}; steps {info['steps'][:12]!r}")
@@ -319,12 +365,12 @@ def oracle_asgi(case) -> Result:
     if undisturbed and raise_at is None and not info["completed"]:
         # nobody left and nothing failed, yet the producer was stopped before it had finished: whatever it still had to say is lost
         r.fail(f"C06:asgi:{kind}:producer-cut-short", f"{ctx}: the call returned at {R} without a disconnect, but the producer was closed before its end; delivered {got!r}")
-    _classify_asgi(r, case, run)
+    _classify_asgi(r, case, run, info)
     r.note = {"returned_at": R, "delivered": got, "finalized_at": info["finalized_at"], "call_cancelled": bool(info.get("call_cancelled"))}
     return r
 
 
-def _classify_asgi(r, case, run):
+def _classify_asgi(r, case, run, info=None):
     D = case.get("disconnect_at")
     total = sum(case["delays"]) + 0.0
     inside = D is not None and 0 < D < total + case.get("send_delay", 0) * (case["items"] + 1) + EPS
@@ -356,6 +402,22 @@ def _classify_asgi(r, case, run):
         r.label("endless-producer")
     if case.get("send_delay", 0) > case.get("ping", 1.0):
         r.label("client-slower-than-ping")
+    if "threads" in case or case.get("stuck") is not None:
+        # non-trivial here: the client left / the server cancelled while a worker thread was inside the blocking function
+        gates = (info or {}).get("gates", [])
+        T = run.disconnected_at if run is not None and run.disconnected_at is not None else (info or {}).get("cancelled_at")
+        blocked = T is not None and any(g.entered.is_set() and g.begin <= T + EPS and (g.released_at is None or g.released_at > T + EPS) for g in gates)
+        r.nontrivial = bool(blocked)
+        if not gates:
+            r.label("control-no-blocking-call")
+        else:
+            r.label("producer-in-threadpool", "worker-blocked-at-disconnect" if blocked else ("blocking-calls-returned-before-disconnect" if T is not None else "blocking-calls-undisturbed"))
+            if blocked:
+                first = min(i for i in list(case.get("threads") or ()) + ([case["stuck"]] if case.get("stuck") is not None else []))
+                k = next(j for j, g in enumerate(gates) if g.begin <= T + EPS and (g.released_at is None or g.released_at > T + EPS))
+                r.label("blocked-in-first-blocking-call" if k == 0 else "blocked-in-later-blocking-call", "blocked-in-step-0" if first == 0 and k == 0 else "blocked-in-later-step")
+        if case.get("stuck") is not None:
+            r.label("blocking-call-never-returns")
 
 
 def _cum(xs):
@@ -906,6 +968,8 @@ SUBS = {
     "asgi_cancel": oracle_asgi,
     "asgi_slow_client": oracle_asgi,
     "asgi_endless": oracle_asgi,
+    "asgi_threads": oracle_asgi,
+    "asgi_threads_h": oracle_asgi,
     "wsgi_sse": oracle_wsgi_sse,
     "wsgi_sse_ping": oracle_wsgi_sse,
     "wsgi_sse_long": oracle_wsgi_sse,
@@ -1112,6 +1176,89 @@ def asgi_endless_cases():
                        "raise_at": None, "send_raises": False, "endless": True, "cancel_at": t}
 
 
+_THREAD_PATTERNS = (
+    # delays of the 4 steps (3 items + the producer's last bit), steps that block in a worker thread, stuck step, raising step
+    ([0.5, 0.5, 0.5, 0.5], [], None, None),  # control: plain `await asyncio.sleep`, same loop
+    ([0.75, 0.5, 0.5, 0.5], [0], None, None),  # the first step blocks
+    ([0.5, 0.5, 1.5, 0.5], [2], None, None),  # a later step blocks
+    ([0.5, 0.5, 0.5, 0.5], [0, 1, 2, 3], None, None),  # every step blocks
+    ([0, 0, 0, 0], [0, 1, 2, 3], None, None),  # every blocking function returns at once
+    ([0.5, 0.5, 0.5, 0.5], [1, 2], None, 2),  # the blocking function of step 2 raises
+    ([0, 0.5, 0.5, 0.5], [], 0, None),  # the first blocking call does not return
+    ([0.5, 0.25, 0, 0.5], [1], 2, None),  # a later one does not return (an earlier one did)
+)
+
+
+def asgi_thread_cases(quick):
+    """Producers whose steps await baize's run_in_threadpool around a blocking function owned by the harness, on the
+    thread-aware virtual loop: disconnect / cancellation at every instant of the grid."""
+    for delays, threads, stuck, raise_at in _THREAD_PATTERNS:
+        for kind in ("sse", "stream", "sse-view", "stream-view"):
+            for send_delay in (0, 0.25):
+                if kind.endswith("-view") and send_delay and quick:
+                    continue
+                horizon = (2.5 if stuck is not None else sum(delays) + 1.0) + 4 * send_delay
+                instants = [None] + [0.25 * k for k in range(int(horizon * 4) + 1)]
+                for how in ("disconnect", "disconnect-send-raises", "cancel"):
+                    if how == "disconnect-send-raises" and (send_delay or kind.endswith("-view")):
+                        continue
+                    for t in instants:
+                        if t is None and (how != "disconnect" or stuck is not None):
+                            continue
+                        if stuck is not None and "sse" not in kind:
+                            # a byte-stream call may wait for the producer's next step, and this one never ends: no bound applies
+                            continue
+                        case = _base(kind, delays, raise_at, items=3, send_delay=send_delay, threads=list(threads))
+                        if stuck is not None:
+                            case["stuck"] = stuck
+                        if how == "cancel":
+                            case["cancel_at"] = t
+                        else:
+                            case["disconnect_at"] = t
+                            case["send_raises"] = how == "disconnect-send-raises"
+                        yield case
+
+
+@st.composite
+def asgi_thread_case(draw):
+    n = draw(st.integers(0, 5))
+    delays = [draw(_grid) for _ in range(n + 1)]
+    kind = draw(st.sampled_from(["sse", "sse", "sse-view", "stream", "stream-view"]))
+    threads = [i for i in range(n + 1) if draw(st.integers(0, 2)) > 0]
+    how = draw(st.sampled_from(["disconnect", "disconnect", "disconnect", "cancel", "none"]))
+    stuck = None
+    if how != "none" and "sse" in kind and draw(st.integers(0, 2)) == 0:
+        stuck = draw(st.integers(0, n))
+        delays[stuck] = 0
+        threads = [i for i in threads if i != stuck]
+    total = sum(delays[: stuck] if stuck is not None else delays)
+    t = None
+    if how != "none":
+        t = draw(st.sampled_from([0.0, 0.25, 0.5, 0.75, 1.0, 1.25, 1.5, 2.0, 2.5, 3.0, 4.0, total, max(total - 0.25, 0), total + 0.25, total / 2, total + 1.0]))
+        t = round(t * 4) / 4
+    case = {
+        "kind": kind,
+        "items": n,
+        "delays": delays,
+        "send_delay": draw(st.sampled_from([0, 0, 0.25, 0.5, 1.5])),
+        "ping": draw(st.sampled_from([0.5, 1.0, 1.0, 3.0])),
+        "disconnect_at": t if how == "disconnect" else None,
+        "raise_at": draw(st.one_of(st.none(), st.none(), st.none(), st.integers(0, n))),
+        "send_raises": draw(st.booleans()) if how == "disconnect" else False,
+        "threads": threads,
+    }
+    if stuck is not None:
+        case["stuck"] = stuck
+    if how == "cancel":
+        case["cancel_at"] = t
+    extra = draw(st.integers(0, 7))
+    if extra == 0:
+        case["source"] = "iter"
+    if extra in (1, 2):
+        case["cleanup"] = draw(st.sampled_from([0.25, 0.5, 1.0]))
+    return case
+
+
 def wsgi_stream_cases():
     for n in range(0, 5):
         for end in ("finish", "raise"):
@@ -1161,9 +1308,10 @@ def run(rec, only=None):
     core.drive_cases(rec, "asgi_grid", grid, oracle_asgi)
     rec.exhaustive["asgi_grid"] = True
     for sub, cases in (("asgi_requests", asgi_request_cases()), ("asgi_blanks", asgi_blank_cases()), ("asgi_sources", asgi_sources_cases()), ("asgi_cleanup", asgi_cleanup_cases(quick)), ("asgi_cancel", asgi_cancel_cases(quick)),
-                       ("asgi_slow_client", asgi_slow_client_cases()), ("asgi_endless", asgi_endless_cases())):
+                       ("asgi_slow_client", asgi_slow_client_cases()), ("asgi_endless", asgi_endless_cases()), ("asgi_threads", asgi_thread_cases(quick))):
         core.drive_cases(rec, sub, cases, oracle_asgi)
         rec.exhaustive[sub] = True
     core.drive_hypothesis(rec, "asgi", asgi_case(), oracle_asgi, 1500 if quick else 500000)
     core.drive_hypothesis(rec, "wsgi_sse_long", long_schedule(), oracle_wsgi_sse, 150 if quick else 6400, seed_offset=1, shrink=False)
-    rec.exhaustive["asgi"] = rec.exhaustive["wsgi_sse_long"] = False
+    core.drive_hypothesis(rec, "asgi_threads_h", asgi_thread_case(), oracle_asgi, 400 if quick else 40000, seed_offset=2)
+    rec.exhaustive["asgi"] = rec.exhaustive["wsgi_sse_long"] = rec.exhaustive["asgi_threads_h"] = False
